@@ -842,6 +842,28 @@ func (w *World) BridgeStory(o HistOpts) {
 		}
 	}
 	w.block(o, 2*sec, reps...)
+	// optionally a third deposit reported ONE BLOCK LATER by the same operators, after their stake has changed, in a
+	// window shortened by one block (governance): it closes in the same block as the first, so one reward payout covers
+	// two aggregates in which the same reporters appear with different powers
+	if spec, err := w.App.RegistryKeeper.GetSpec(w.Ctx, "trbbridge"); err == nil && spec.ReportBlockWindow >= 2 && w.pick(2) == 0 {
+		id3 := uint64(1 + w.pick(8))
+		if id3 != id {
+			dep3 := fmt.Sprintf("dep%d", id3)
+			val3 := DepositValue(w.user().Addr.String(), new(big.Int).Mul(big.NewInt(int64(1+w.pick(5000))), big.NewInt(1e12)), big.NewInt(0))
+			spec.ReportBlockWindow--
+			late := []func(){func() { w.UpdateDataSpec(w.Gov, "trbbridge", spec) }, func() { w.Tip(w.user(), dep3, int64(1_000_000+w.pick(2_000_000))) }}
+			for k, i := range sub {
+				if i < len(ops) {
+					a, v := ops[i], w.Vals[i]
+					amt := int64(1_000_000 * (50 + 400*k + w.pick(300)))
+					late = append(late, func() { w.Delegate(a, v, amt) }, func() { w.Submit(a, dep3, val3) })
+				}
+			}
+			w.block(o, 2*sec, late...)
+			spec.ReportBlockWindow++
+			w.block(o, 2*sec, func() { w.UpdateDataSpec(w.Gov, "trbbridge", spec) })
+		}
+	}
 	for i := 0; i < 5; i++ {
 		w.block(o, 2*sec)
 	}
